@@ -2361,7 +2361,7 @@ int _vnaproperty_yaml_export(vnaproperty_yaml_t *vymlp,
 	    }
 	    if (strchr(value, '\n') != NULL) {
 		style = YAML_LITERAL_SCALAR_STYLE;
-	    } else if (is_yaml_null_value(value)) {
+	    } else if (value[0] == '\000' || is_yaml_null_value(value)) {
 		style = YAML_DOUBLE_QUOTED_SCALAR_STYLE;
 	    }
 	    errno = 0;
